@@ -155,7 +155,8 @@ def escape_kinds(f: Func, allowed: set[str], str_params: set[str], safe_funcs: s
     for c in walk_body(f.node.body):
         if isinstance(c, ast.Call) and dotted(c.func):
             sem._helper_safe(dotted(c.func))  # counts the guarded calls that moved into helpers
-    return {(s[1], s[2]) for s in out.exc}, n_guarded + sem.helper_guarded
+    # (a state that reaches an exceptional exit without passing through simple_exc / on_raise carries no kind: unknown)
+    return {(s[1], s[2]) if len(s) >= 3 else ("unknown", 0) for s in out.exc}, n_guarded + sem.helper_guarded
 
 
 SAFE_EXC_ATTRS = {"args", "message", "get_context", "line", "column", "pos_in_stream", "__class__", "__str__", "with_traceback", "__cause__", "__context__", "__traceback__"}
